@@ -64,6 +64,9 @@ T = [
     ('arith', 'int-to-real-assign', 'i1 i2 s', 's = i1\ns = s + i2*2'),
     ('arith', 'real-to-int-array-store', 'n x a', 'a(1) = x*2\na(n) = -x'),
     ('arith', 'cast-real-kind', 'i1 i2 s', 's = real(i1, kind=real64)/2 + real(i2, kind=real64)*real(i1, kind=real64)'),
+    ('arith', 'cast-of-int-quotient', 'i1 i2 s', 's = real(i1/2, kind=real64) + real(i1*i2/3, kind=real64) - real(7/i2, kind=real64)'),
+    ('arith', 'cast-of-int-expressions', 'i1 i2 s', 's = real(i1*i2, kind=real64)/4 + real(i1 - i2, kind=real64)/2 + real(-i1, kind=real64)/8 + real(i1**2, kind=real64)/16'),
+    ('arith', 'cast-of-array-element-quotient', 'n a c', 'do i = 1, n\n  c(i) = real(a(i)/2, kind=real64) + real(a(i), kind=real64)/2\nend do'),
     ('arith', 'cast-real-default', 'i1 s', 's = real(i1)/4'),
     ('arith', 'parameter-constants', 'i1 x k2 s', 'k2 = p*i1 + p\ns = w*x', 'integer, parameter :: p = 3\nreal(kind=real64), parameter :: w = 2.5_real64'),
     ('arith', 'inout-scalars', 'x i1 q m s k2', 'q = q + x\nm = m*2 + i1\ns = q*2\nk2 = m - 1'),
